@@ -175,19 +175,11 @@ Section Proofs.
     - intros i i'. apply key_same_but_checks; assumption.
     - apply warm_eq_cold_generic.
   Qed.
-End Proofs.
 
-(* ---------- a second run of the same world analyses nothing that succeeded before ---------- *)
-Section Rerun.
-  Variables V F R K : Type.
-  Variable K_eq_dec : forall a b : K, {a = b} + {a <> b}.
-  Variables KF : list dim.
-  Variable H : list (ival V F) -> K.
-  Variable analyse : inp V F -> option (F * R).
 
-  Local Notation keyf := (key KF H).
-  Local Notation stepf := (step V F R K K_eq_dec KF H analyse).
-  Local Notation run_pkgsf := (run_pkgs V F R K K_eq_dec KF H analyse).
+  (* ---------- the cache is effective: what a run stored is found by later runs ---------- *)
+  Local Notation analyses_pkgsf := (analyses_pkgs V F R K K_eq_dec KF H analyse).
+  Local Notation step_analysesf := (step_analyses V F R K K_eq_dec KF H).
 
   (* the cache only grows during a run *)
   Definition grows (c c' : cache F R K) : Prop :=
@@ -196,22 +188,115 @@ Section Rerun.
   Proof. split; auto. Qed.
   Lemma grows_trans a b c : grows a b -> grows b c -> grows a c.
   Proof. intros [A1 A2] [B1 B2]. split; auto. Qed.
-  Lemma step_grows c dn p : grows c (fst (fst (stepf c dn p))).
+  Lemma grows_put_vetx k f c : grows c (put_vetxf k f c).
+  Proof. split; simpl; intros k' Hk; [destruct (K_eq_dec k' k); [discriminate|exact Hk] | exact Hk]. Qed.
+  Lemma grows_put_res k r c : grows c (put_resf k r c).
+  Proof. split; simpl; intros k' Hk; [exact Hk | destruct (K_eq_dec k' k); [discriminate|exact Hk]]. Qed.
+
+  (* a step that succeeds leaves vetx (and, for an initial package, results) under the package's key *)
+  Lemma step_grows_stores c dn p :
+    grows c (fst (fst (stepf c dn p))) /\
+    (forall df f, dep_facts F dn (p_deps p) = Some df -> snd (fst (stepf c dn p)) = Some f ->
+       c_vetx (fst (fst (stepf c dn p))) (keyf (mkInp (p_loc p) df)) <> None /\
+       (p_initial p = true -> c_res (fst (fst (stepf c dn p))) (keyf (mkInp (p_loc p) df)) <> None)).
   Proof.
-    unfold step. destruct (dep_facts F dn (p_deps p)) as [df|]; [|apply grows_refl].
+    unfold step. destruct (dep_facts F dn (p_deps p)) as [df|];
+      [|split; [apply grows_refl | intros df f E; discriminate]].
+    set (k := keyf (mkInp (p_loc p) df)).
     destruct (p_initial p).
-    - destruct (c_vetx c _) eqn:Ev; [destruct (c_res c _) eqn:Er|]; simpl; try apply grows_refl;
-        (destruct (analyse _) as [[f1 r1]|]; simpl; [|apply grows_refl]; split; simpl; intros k Hk;
-         [destruct (K_eq_dec k _); [discriminate|exact Hk] | destruct (K_eq_dec k _); [discriminate|exact Hk]]).
-    - destruct (c_vetx c _) eqn:Ev; simpl; [apply grows_refl|].
-      destruct (analyse _) as [[f1 r1]|]; simpl; [|apply grows_refl]. split; simpl; intros k Hk; [|exact Hk].
-      destruct (K_eq_dec k _); [discriminate|exact Hk].
+    - destruct (c_vetx c k) as [fv|] eqn:Ev; [destruct (c_res c k) as [rv|] eqn:Er|].
+      + simpl. split; [apply grows_refl|]. intros df' f E _. injection E as <-. fold k.
+        rewrite Ev, Er. split; [discriminate | intros _; discriminate].
+      + destruct (analyse (mkInp (p_loc p) df)) as [[f1 r1]|]; simpl.
+        * split; [eapply grows_trans; [apply grows_put_vetx | apply grows_put_res]|].
+          intros df' f E _. injection E as <-. fold k. simpl.
+          destruct (K_eq_dec k k) as [_|N]; [|contradiction]. split; [discriminate | intros _; discriminate].
+        * split; [apply grows_refl | intros df' f _ E; discriminate].
+      + destruct (analyse (mkInp (p_loc p) df)) as [[f1 r1]|]; simpl.
+        * split; [eapply grows_trans; [apply grows_put_vetx | apply grows_put_res]|].
+          intros df' f E _. injection E as <-. fold k. simpl.
+          destruct (K_eq_dec k k) as [_|N]; [|contradiction]. split; [discriminate | intros _; discriminate].
+        * split; [apply grows_refl | intros df' f _ E; discriminate].
+    - destruct (c_vetx c k) as [fv|] eqn:Ev.
+      + simpl. split; [apply grows_refl|]. intros df' f E _. injection E as <-. fold k.
+        rewrite Ev. split; [discriminate | intro; discriminate].
+      + destruct (analyse (mkInp (p_loc p) df)) as [[f1 r1]|]; simpl.
+        * split; [apply grows_put_vetx|].
+          intros df' f E _. injection E as <-. fold k. simpl.
+          destruct (K_eq_dec k k) as [_|N]; [|contradiction]. split; [discriminate | intro; discriminate].
+        * split; [apply grows_refl | intros df' f _ E; discriminate].
   Qed.
+
   Lemma run_pkgs_grows ps : forall c dn, grows c (fst (run_pkgsf c dn ps)).
   Proof.
     induction ps as [|p t IH]; intros c dn; simpl; [apply grows_refl|].
-    pose proof (step_grows c dn p) as Hs. destruct (stepf c dn p) as [[c' f] o]. simpl in Hs.
-    specialize (IH c' ((p_id p, f) :: dn)). destruct (run_pkgsf c' _ t) as [c'' os]. simpl in *.
+    pose proof (proj1 (step_grows_stores c dn p)) as Hs. destruct (stepf c dn p) as [[c' f] o]. simpl in Hs.
+    specialize (IH c' ((p_id p, f) :: dn)). destruct (run_pkgsf c' ((p_id p, f) :: dn) t) as [c'' os]. simpl in *.
     eapply grows_trans; eassumption.
   Qed.
-End Rerun.
+
+  (* two descriptions of a package that differ at most in the check selection *)
+  Definition same_pkg (p p' : pkg V) : Prop :=
+    p_id p = p_id p' /\ p_deps p = p_deps p' /\ p_initial p = p_initial p' /\
+    forall d, d <> Cfg "Checks" -> d <> FlagChecks -> p_loc p d = p_loc p' d.
+
+  Lemma rerun_pkgs :
+    ~ In (Cfg "Checks") KF -> ~ In FlagChecks KF ->
+    forall ps ps', Forall2 same_pkg ps ps' ->
+    forall c dn cR, inv c -> inv cR -> grows (fst (run_pkgsf c dn ps)) cR ->
+      (forall x, In x (ref_pkgsf dn ps) -> snd x <> OFailed) ->
+      analyses_pkgsf cR dn ps' = 0.
+  Proof.
+    intros N1 N2 ps ps' HF. induction HF as [|p p' t t' Hp HF IH]; intros c dn cR Hc HR Hg Hok; [reflexivity|].
+    destruct Hp as [Hid [Hdeps [Hini Hloc]]].
+    (* the first run on p *)
+    pose proof (step_ref c dn p Hc) as [Hs Hi].
+    pose proof (step_grows_stores c dn p) as [_ Hst].
+    simpl in Hg, Hok.
+    destruct (stepf c dn p) as [[c1 f] o] eqn:Estep. simpl in Hs, Hi, Hst.
+    destruct (ref_stepf dn p) as [f0 o0] eqn:Eref. injection Hs as <- <-.
+    assert (Ho : o <> OFailed) by (apply (Hok (p_id p, o)); left; reflexivity).
+    assert (Hg1 : grows c1 cR).
+    { pose proof (run_pkgs_grows t c1 ((p_id p, f) :: dn)) as G.
+      destruct (run_pkgsf c1 ((p_id p, f) :: dn) t) as [c2 os]. simpl in *. eapply grows_trans; eassumption. }
+    (* it succeeded *)
+    unfold ref_step in Eref.
+    destruct (dep_facts F dn (p_deps p)) as [df|] eqn:Edf; [|injection Eref as <- <-; contradiction].
+    destruct (analyse (mkInp (p_loc p) df)) as [[fa ra]|] eqn:Ea; [|injection Eref as <- <-; contradiction].
+    injection Eref as <- Eo.
+    destruct (Hst df fa eq_refl eq_refl) as [Hv Hr].
+    (* the second run on p' hits *)
+    assert (Hk : keyf (mkInp (p_loc p') df) = keyf (mkInp (p_loc p) df)).
+    { apply key_same_but_checks; [assumption|assumption|]. split; [reflexivity|].
+      intros d D1 D2. simpl. symmetry. apply Hloc; assumption. }
+    destruct Hg1 as [Gv Gr].
+    simpl. unfold step_analyses, step. rewrite <- Hdeps, Edf, <- Hini. rewrite Hk.
+    set (k := keyf (mkInp (p_loc p) df)) in *.
+    destruct (c_vetx cR k) as [fv|] eqn:Ev; [|exfalso; apply (Gv k Hv); exact Ev].
+    assert (Hfv : fv = fa).
+    { destruct HR as [HRv _]. destruct (HRv k fv Ev (mkInp (p_loc p) df) eq_refl) as [r1 H1].
+      rewrite Ea in H1. injection H1 as -> _. reflexivity. }
+    subst fv.
+    assert (Htail : forall x, In x (ref_pkgsf ((p_id p, Some fa) :: dn) t) -> snd x <> OFailed).
+    { intros x Hx. apply Hok. right. exact Hx. }
+    assert (Hg2 : grows (fst (run_pkgsf c1 ((p_id p, Some fa) :: dn) t)) cR).
+    { destruct (run_pkgsf c1 ((p_id p, Some fa) :: dn) t) as [c2 os]. exact Hg. }
+    destruct (p_initial p).
+    - destruct (c_res cR k) as [rv|] eqn:Er; [|exfalso; apply (Gr k (Hr eq_refl)); exact Er].
+      simpl. rewrite <- Hid. apply (IH c1 ((p_id p, Some fa) :: dn) cR Hi HR Hg2 Htail).
+    - simpl. rewrite <- Hid. apply (IH c1 ((p_id p, Some fa) :: dn) cR Hi HR Hg2 Htail).
+  Qed.
+
+  (* After a run of w (on any cache satisfying the invariant, e.g. the one an arbitrary history left) in which
+     no package failed, a run of any world that differs from w at most in the check selection performs NO
+     analysis, provided nothing was trimmed in between. *)
+  Theorem rerun_no_analysis_generic :
+    ~ In (Cfg "Checks") KF -> ~ In FlagChecks KF ->
+    forall w w' c, inv c -> Forall2 same_pkg w w' ->
+      (forall x, In x (ref_runf w) -> snd x <> OFailed) ->
+      analyses V F R K K_eq_dec KF H analyse w' (fst (runf w c)) = 0.
+  Proof.
+    intros N1 N2 w w' c Hc HF Hok. unfold analyses.
+    apply (rerun_pkgs N1 N2 w w' HF c [] (fst (runf w c)) Hc (run_keeps_inv w c Hc)); [apply grows_refl | exact Hok].
+  Qed.
+End Proofs.
